@@ -7,6 +7,7 @@ core::Plan generate(const std::string &prop, uint64_t seed, bool thorough) {
   if (prop == "C01" || prop == "C11") return gen_stream(prop, seed, thorough);
   if (prop == "C17") return gen_pending(seed, thorough);
   if (prop == "C20") return gen_tree(seed, thorough);
+  if (prop == "C08") return gen_auth(seed, thorough);
   core::harness_error("simlib has no generator for %s", prop.c_str());
 }
 
@@ -14,6 +15,7 @@ core::RunResult execute(const core::Plan &plan, bool log) {
   if (plan.prop == "C01" || plan.prop == "C11") return run_stream(plan, log);
   if (plan.prop == "C17") return run_pending(plan, log);
   if (plan.prop == "C20") return run_tree(plan, log);
+  if (plan.prop == "C08") return run_auth(plan, log);
   core::harness_error("simlib cannot execute plans of %s", plan.prop.c_str());
 }
 
